@@ -54,6 +54,8 @@ class BiProxy:
 
 CH = Chooser()
 eng.bi = BiProxy(CH)
+OPT_FIELDS = ('audio_buses', 'control_buses', 'buffers', 'input_channels', 'output_channels', 'reserved_audio_buses',
+              'reserved_control_buses', 'reserved_buffers', 'max_logins', 'initial_node_id')
 KINDS = ('audio', 'control', 'buffer')
 ATTR = {'audio': '_audio_bus_allocator', 'control': '_control_bus_allocator', 'buffer': '_buffer_allocator'}
 
@@ -77,10 +79,12 @@ class Run:
 
     def attach(self, si):
         s = self.servers[si]
+        if si == 0:
+            self.built_init = s.options.initial_node_id     # what the node allocator was built with
         for which in KINDS:
             a = getattr(s, ATTR[which])
             seg = {'which': which, 'server': si, 'params': [a.size, a.pos - a.addr_offset, a.addr_offset],
-                   'client': s.client_id, 'log': []}
+                   'client': s.client_id, 'opts': {f: getattr(s.options, f) for f in OPT_FIELDS}, 'log': []}
             self.segments.append(seg)
             self.live[(si, which)] = {}
             self.spy(a, si, which, seg)
@@ -139,7 +143,7 @@ def run_case(servers, c):
     run = Run(servers)
     run.attach(0)
     run.attach(1)
-    res = {'client_id': s.client_id, 'first_private_bus': s.options.first_private_bus(), 'errors': [], 'node': []}
+    res = {'client_id': s.client_id, 'first_private_bus': s.options.first_private_bus(), 'errors': [], 'node': [], 'setclient': []}
     objs = []            # (kind, obj, server idx, allocated start or None, explicit)
     cls = {'A': (AudioBus, 'audio'), 'C': (ControlBus, 'control')}
     for op in c['ops']:
@@ -234,14 +238,25 @@ def run_case(servers, c):
                 g1 = Group.basic_new(s)
                 for o0 in (n0, g0, y0):
                     run.expect(what, is_int(o0.node_id) and o0.node_id == 0, 'explicit node id 0 became %r' % (o0.node_id,))
-                res['node'].append({'temp0': temp0, 'client': s.client_id, 'user': s._node_allocator.user, 'init': s._node_allocator._init_temp, 'ids': ids + [g1.node_id],
+                res['node'].append({'built_init': run.built_init, 'temp0': temp0, 'client': s.client_id, 'user': s._node_allocator.user, 'init': s._node_allocator._init_temp, 'ids': ids + [g1.node_id],
                                     'mask': s._node_allocator._mask, 'temp': s._node_allocator._temp,
                                     'id_offset': s._node_allocator.id_offset()})
                 run.expect(what, run.calls == [], 'node ids reached a bus/buffer allocator: %s' % (run.calls,))
             elif kind == 'R':
+                before = [getattr(s, ATTR[w]) for w in KINDS] + [s._node_allocator]
+                c0 = s.client_id
+                osnap = {f: getattr(s.options, f) for f in OPT_FIELDS}
                 s._set_client_id(op[1])
-                run.attach(0)            # new allocators: new segments; the objects created so far are stale
+                after = [getattr(s, ATTR[w]) for w in KINDS] + [s._node_allocator]
+                rebuilt = [x is not y for x, y in zip(before, after)]
+                run.expect(what, all(rebuilt) or not any(rebuilt), 'only some allocators were re-created: %s' % (rebuilt,))
+                res['setclient'].append({'opts': osnap, 'c0': c0, 'v': op[1], 'c1': s.client_id, 'rebuilt': all(rebuilt)})
+                if all(rebuilt):
+                    run.attach(0)        # new allocators: new segments; the objects created so far are stale
                 res['client_id'] = s.client_id
+            elif kind == 'O':
+                for f, v in op[1].items():
+                    setattr(s.options, f, v)    # the user changes options; nothing is rebuilt until _set_client_id
             elif kind == 'D':
                 Server.default = servers[1]
                 try:
